@@ -609,6 +609,7 @@ impl Sim {
             let spec = content::HtlcSpec {
                 hash_ix: 0,
                 htlc_hash: pool().hashes[0],
+                hash_len: 32,
                 amount_msat: 1000,
                 expiry_off: 2000,
                 expiry_abs: None,
@@ -761,7 +762,7 @@ impl Sim {
                 "amount_msat": s.amount_msat,
                 "cltv_expiry": h.expiry,
                 "cltv_expiry_relative": rel,
-                "payment_hash": rf::hex(&s.htlc_hash),
+                "payment_hash": wire_hash_hex(&s.htlc_hash, s.hash_len),
             },
             "forward_to": "0000000000000000000000000000000000000000000000000000000000000000",
         });
@@ -1507,6 +1508,17 @@ impl Sim {
 
 pub fn find_sep(b: &[u8]) -> Option<usize> {
     b.windows(2).position(|w| w == b"\n\n")
+}
+
+/// htlc.payment_hash as it goes on the wire (see HtlcSpec::hash_len).
+pub fn wire_hash_hex(h: &[u8; 32], len: u8) -> String {
+    if len <= 32 {
+        rf::hex(&h[..len as usize])
+    } else {
+        let mut v = h.to_vec();
+        v.push(0x5a);
+        rf::hex(&v)
+    }
 }
 
 pub fn id_key(id: &Value) -> String {
